@@ -30,6 +30,7 @@ def run(chk, tier):
     chk.guarded(r_ordinal_box, P, tier)
     chk.guarded(r_cycle, P, tier)
     chk.guarded(r_num_days_in_month, P)
+    chk.guarded(r_isoweek_accessors, P)
     chk.assume("the branchy arithmetic that combines the verified tables (from_isoywd_opt spill, cycle_to_yo, succ/pred rollover) "
                "is not decided here")
     return {
@@ -573,3 +574,30 @@ def r_num_days_in_month(chk, P):
     if not n:
         from core import AnchorLost
         raise AnchorLost(fn + ": no Month::num_days call in the returned value")
+
+
+def r_isoweek_accessors(chk, P):
+    """IsoWeek packs (year << 10) | (week << 4) | flags; year(), week(), week0() as a complete finite map over week 1..=53 x all 16 flag values x three years"""
+    from finmap import Folder, show, Unknown
+    chk.rule("MAP.isoweek", "IsoWeek::year / week / week0 folded for every week 1..=53, every flags nibble and years -1 / 0 / 2024 return year, week, week - 1", floor=2500)
+    fo = Folder(P)
+    IW = "naive::isoweek::IsoWeek"
+    bad = {}
+    n = 0
+    for y in (-1, 0, 2024, 262142):
+        for w in range(1, 54):
+            for fl in range(16):
+                v = ("ref", ("agg", "adt", IW, "IsoWeek", (_c((y << 10) | (w << 4) | fl),), 0))
+                for fn, want in (("year", y), ("week", w), ("week0", w - 1)):
+                    try:
+                        got = show(fo.call(IW + "::" + fn, [v]))
+                    except Unknown as e:
+                        got = "unknown: %s" % e
+                    if got == want:
+                        n += 1
+                    else:
+                        bad.setdefault(fn, ((y, w, fl), got, want))
+    for _ in range(n):
+        chk.ok("value")
+    for fn, (a, got, want) in sorted(bad.items()):
+        chk.bad(fn, "IsoWeek::%s of (year, week, flags) = %s folds to %s, expected %s" % (fn, a, got, want), loc=P.loc(IW + "::" + fn))
